@@ -9,7 +9,9 @@ from core import rng
 
 NAMES = ["orders", "stock"]
 SOURCES = ["alpha.csv", "beta.csv"]
-CONTENTS = [b"a,b\n1,2\n", b"a,b\n3,4\n5,6\n", b"x\n"]
+# (the last content has the length of the first: an edit that keeps the size)
+CONTENTS = [b"a,b\n1,2\n", b"a,b\n3,4\n5,6\n", b"x\n", b"a,b\n1,3\n"]
+FIXED_MTIME = 1700000000
 
 
 def all_ops():
@@ -89,6 +91,8 @@ def case_history(case):
             sp = os.path.join("data/src", op["src"])
             with open(sp, "wb") as f:
                 f.write(b)
+            if case.get("same_mtime"):
+                os.utime(sp, (FIXED_MTIME, FIXED_MTIME))     # a copy that keeps timestamps (cp -p, rsync -t, a restore)
             cp.file_manager.add_named_file(name=op["name"], path=sp)
             d = sha(b)
             v = spec.setdefault(op["name"], [])
@@ -101,6 +105,8 @@ def case_history(case):
             sp = os.path.join("data/src", op["src"])
             with open(sp, "wb") as f:
                 f.write(CONTENTS[op["content"]])
+            if case.get("same_mtime"):
+                os.utime(sp, (FIXED_MTIME, FIXED_MTIME))
         elif kind == "remove":
             if op["name"] in cp.file_manager.named_file_names:
                 cp.file_manager.remove_named_file(op["name"])
